@@ -171,6 +171,12 @@ def parse (N : Norm) (s : Bytes) : Except Err Jid :=
   | .error e => .error e
   | .ok (l, d, r) => new N l d r
 
+/-- `MustParse(s)`: `Parse`, the error turned into a panic (`none`) -/
+def mustParse (N : Norm) (s : Bytes) : Option Jid :=
+  match parse N s with
+  | .ok j => some j
+  | .error _ => none
+
 /-- `ParseUnsafe(s)`: the value is built even when the split reports an error (the parts are
 then empty) -/
 def parseUnsafe (s : Bytes) : Jid × Bool :=
